@@ -2,6 +2,7 @@ package main
 
 import (
 	"fmt"
+	"regexp"
 	"go/types"
 	"strings"
 
@@ -37,6 +38,30 @@ func needWLock(desc string) Need {
 }
 
 func atom(desc string, atoms ...string) Need { return Need{Desc: desc, Atoms: atoms} }
+
+// atomMatching: an edge whose atom matches the pattern (for facts about an object whose local
+// name depends on how the function allocates it: `len(<the BackendError of this call>.Errors) == 0`).
+func atomMatching(fn *ssa.Function, desc, pattern string) Need {
+	re := regexp.MustCompile(pattern)
+	R := NewRenderer(fn)
+	type ek struct {
+		b *ssa.BasicBlock
+		k int
+	}
+	hit := map[ek]bool{}
+	for _, ea := range allAtoms(fn, R) {
+		if re.MatchString(ea.Atom.String()) {
+			hit[ek{ea.B, ea.Succ}] = true
+		}
+	}
+	return Need{Desc: desc, Edge: func(b *ssa.BasicBlock, k int) bool { return hit[ek{b, k}] }}
+}
+
+// errorsEmpty: no per-replica error was recorded in the BackendError this function built (a
+// composite literal of its own, directly or inside a collector object).
+func errorsEmpty(fn *ssa.Function, desc string) Need {
+	return atomMatching(fn, desc, `^\+len\(.*complit.*\.Errors\) ==0$`)
+}
 func called(names ...string) Need {
 	return Need{Desc: "after call " + strings.Join(names, "|"), Calls: names}
 }
